@@ -449,6 +449,62 @@ def listing_during_change(item):
     return part
 
 
+def dash_names(item):
+    """entries whose names begin with '-' (legal names, and what `ls` would take for switches), addressed by their bare
+    relative name: LIST and MLSD report the same - the directory asked for"""
+    backend, fallback = item
+    part = report.Partial()
+    tree = {"w": {"-old": {"inner": b"1", "-x": {}}, "-1": {"deep": b"22"}, "-la": b"file", "top": b"t"}}
+    rig = Rig(tree=tree, backend=backend, epoch0=EPOCH)
+    w = rig.world
+    a = w.aioftp
+    if fallback:
+        rig.server.commands_mapping.pop("mlst")
+        rig.server.commands_mapping.pop("mlsd")
+    problems = []
+    truth = {"-old": ["-old/-x", "-old/inner"], "-1": ["-1/deep"], "": ["-1", "-la", "-old", "top"]}
+
+    async def main():
+        c = a.Client(path_io_factory=a.MemoryPathIO)
+        await c.connect("127.0.0.1", 2121)
+        await c.login()
+        await c.change_directory("/w")
+        for arg, want in truth.items():
+            for raw in (("LIST",) if fallback else ("MLSD", "LIST")):
+                got = sorted(str(p_) for p_, i in await c.list(arg, raw_command=raw))
+                if got != want:
+                    problems.append({"kind": "names", "via": raw.lower(), "listed": arg, "got": got, "want": want})
+        for name, ty in (("-old", "dir"), ("-la", "file"), ("-1", "dir")):
+            st = await c.stat(name)
+            if st.get("type") != ty:
+                problems.append({"kind": "type", "via": "stat" + ("-list-fallback" if fallback else ""), "name": name,
+                                 "got": st.get("type"), "want": ty})
+        rec = sorted(str(p_) for p_, i in await c.list("", recursive=True, raw_command="LIST"))
+        want = sorted(["-1", "-1/deep", "-la", "-old", "-old/-x", "-old/inner", "top"])
+        if rec != want:
+            problems.append({"kind": "names", "via": "list-recursive", "listed": "", "got": rec, "want": want})
+        await c.quit()
+
+    try:
+        try:
+            w.run(main())
+        except Hang:
+            problems.append({"kind": "hang", "via": "?"})
+        except Exception as exc:
+            problems.append({"kind": "exception", "via": "?", "exc": repr(exc)[:300]})
+        part.evaluations += 1
+        part.traces += 1
+        part.transitions += w.net.n_events
+        k = report.fp(["dash-names", backend, fallback])
+        part.states.add(k)
+        part.nontrivial.add(k)
+        for p in problems[:1]:
+            part.violation({"kind": p["kind"], "via": p["via"], "dash_names": True}, {"problem": p}, replay={"dash": list(item)})
+    finally:
+        rig.close()
+    return part
+
+
 def faulty_listing(item):
     """one backend call of the listing fails: the client must learn that the listing failed - a listing that is
     reported complete has every entry exactly once"""
@@ -538,6 +594,7 @@ def run(tier, seed, t0):
                                               for v in ("LIST", "MLSD")
                                               for act, victims in (("delete", ("a", "c", "e")), ("create", ("0", "cc", "z")))
                                               for victim in victims for k in range(1, 40 if tier == "quick" else 80, 2 if tier == "quick" else 1)]) \
+        + report.pmap(dash_names, [(b, f) for b in ("memory", "pathio") for f in (False, True)]) \
         + report.pmap(cross_session, [(b, h) for b in ("memory", "pathio", "async")
                                       for h in ("delete-upload", "rename-into-place", "overwrite")])
     part = report.merge_all(parts)
@@ -547,6 +604,7 @@ def run(tier, seed, t0):
                                % ("2 d" if tier != "quick" else "6 h"),
               "listing_during_change": "5 entries, lock-step data connection; another session deletes / creates a sibling after "
                                        "every network event of the listing; LIST and MLSD, 3 backends",
+              "dash_names": "entries named -old, -1, -la, -x listed / stat'ed by their bare relative name (MLSD, LIST, LIST-only server)",
               "cross_session": "a second session replaces a file (3 ways) and a directory between two looks of the first; 3 backends",
               "aged_listing": "LIST verb, data connection 10 s .. 1 h later, an entry created in between (both zones)",
               "faulty_listing": "4 entries, MLSD and LIST, the k-th backend call of the listing fails, k=1..15",
@@ -568,6 +626,8 @@ def replay(path):
     rp = data.get("replay") or {}
     if "faulty" in rp:
         part = faulty_listing(tuple(rp["faulty"]))
+    elif "dash" in rp:
+        part = dash_names(tuple(rp["dash"]))
     elif "during" in rp:
         part = listing_during_change(tuple(rp["during"]))
     elif "cross" in rp:
